@@ -45,7 +45,9 @@ POL = ('target_pch_out_db', 'target_psd_out_mWperGHz', 'target_out_mWperSlotWidt
 def plan(tier, seed):
     n = 240 if tier == 'quick' else 8000
     kinds = ['topology', 'topology', 'equipment', 'services', 'topology', 'spectrum', 'sim', 'alias']
-    return [{'idx': i, 'kind': kinds[i % len(kinds)]} for i in range(n)]
+    cases = [{'idx': i, 'kind': kinds[i % len(kinds)]} for i in range(n)]
+    # dedicated cases that reproduce a listed finding (Raman efficiency of a fibre type through the YANG form)
+    return cases + [{'idx': n, 'kind': 'kf-raman-efficiency'}, {'idx': n + 1, 'kind': 'kf-raman-efficiency'}]
 
 
 def digits_for(key):
@@ -120,13 +122,18 @@ class Cmp:
             self.fail(path, a, b, 'type')
 
 
-def roundtrip(ctx, doc, kind):
-    """Returns (yang, legacy2) or None when the document is not valid YANG."""
+def roundtrip(ctx, doc, kind, accepted_by_loader=False):
+    """Returns (yang, legacy2) or None when the document is not valid YANG.  A document that the real legacy loader
+    accepted (accepted_by_loader) and that cannot be brought to the YANG form is a violation, not a rejected input."""
     try:
         y = legacy_to_yang(deepcopy(doc))
         load_data(json.dumps(y))
     except Exception as e:  # noqa
-        ctx.reject(f'{kind}: not valid YANG: {type(e).__name__}: {str(e)[:160]}')
+        if accepted_by_loader:
+            ctx.violation('accepted-document-not-convertible', f'{kind}: the loader builds a network from this legacy '
+                          f'document but its YANG form is not valid: {type(e).__name__}: {str(e)[:300]}')
+        else:
+            ctx.reject(f'{kind}: not valid YANG: {type(e).__name__}: {str(e)[:160]}')
         return None
     l2 = yang_to_legacy(deepcopy(y))
     ctx.count('documents')
@@ -196,7 +203,19 @@ def gen_topology_doc(rng):
                 p['design_bands'] = [{'f_min': 191.3e12, 'f_max': 195.1e12}]
             return p
         tj, _ = G.gen_topology(rng, max_sites=4, max_spans=3, roadm_params=rp, per_degree=True, lumped=True,
-                               per_freq_loss=True, roadm_variety=rng.choice([None, None, 'detailed_impairments']))
+                               per_freq_loss=True, roadm_variety=rng.choice([None, None, 'detailed_impairments']),
+                               dispersion_variants=rng.random() < 0.5)
+        for e in tj['elements']:
+            # element-level values of the other fibre parameters the topology model declares
+            if e['type'] == 'Fiber' and rng.random() < 0.2:
+                if rng.random() < 0.5:
+                    e['params']['gamma'] = rng.choice([0.00127, 0.0011, 0.0016])
+                else:
+                    e['params']['effective_area'] = rng.choice([83e-12, 72e-12, 125e-12])
+                if rng.random() < 0.5:
+                    e['params'][rng.choice(['ref_frequency', 'ref_wavelength'])] = None
+                    k = 'ref_frequency' if 'ref_frequency' in e['params'] else 'ref_wavelength'
+                    e['params'][k] = 193.5e12 if k == 'ref_frequency' else 1550e-9
         for e in tj['elements']:
             # a top-level variety list of an Edfa cannot be expressed in the YANG model: not a valid document
             if 'variety_list' in e:
@@ -280,7 +299,7 @@ def gen_topology_doc(rng):
     return tj, ename, flavour
 
 
-def gen_equipment_doc(rng):
+def gen_equipment_doc(rng, raman=False):
     name = rng.choice(['eqpt_config.json', 'eqpt_config_multiband.json', 'eqpt_config_openroadm_ver5.json',
                        'eqpt_config_openroadm_ver4.json'])
     ej = G.eqpt_json(name)
@@ -300,6 +319,16 @@ def gen_equipment_doc(rng):
     for k in ('padding', 'EOL', 'con_in', 'con_out', 'max_length'):
         if isinstance(sp.get(k), (int, float)) and rng.random() < 0.3:
             sp[k] = noisy(rng, sp[k], k)
+    if raman:
+        # Raman coefficients of a fibre type (the equipment form: efficiency cr per frequency offset)
+        base = deepcopy(rng.choice(ej['Fiber']))
+        base.pop('gamma', None)
+        n = rng.randint(2, 6)
+        base['raman_efficiency'] = {'cr': [0.0] + [round(rng.uniform(1e-5, 4e-4), 9) for _ in range(n - 1)],
+                                    'frequency_offset': [k * 0.5e12 for k in range(n)]}
+        ej.setdefault('RamanFiber', [])
+        if all(f['type_variety'] != base['type_variety'] for f in ej['RamanFiber']):
+            ej['RamanFiber'].append(base)
     # exact zeros where zero is a legal value
     for k in ('EOL', 'con_in', 'con_out', 'target_extended_gain'):
         if k in sp and rng.random() < 0.2:
@@ -395,13 +424,13 @@ def run_topology(ctx):
     for _ in range(MIXED[0]):
         ctx.count('roadms_mixing_per_degree_target_types')
     ctx.dump.update({'document': tj})
-    rt = roundtrip(ctx, tj, 'topology')
+    equipment = G.make_equipment(G.eqpt_json(ename))
+    x1, n1 = export_of(tj, equipment)          # the real legacy loader accepts the document
+    rt = roundtrip(ctx, tj, 'topology', accepted_by_loader=True)
     if rt is None:
         return
     y, l2 = rt
     c = compare_docs(ctx, tj, l2, 'topology')
-    equipment = G.make_equipment(G.eqpt_json(ename))
-    x1, n1 = export_of(tj, equipment)
     x2, n2 = export_of(l2, equipment)
     ctx.count('loader_equivalence_checks')
     cc = Cmp(ctx, 'export', rel=1e-5)
@@ -409,6 +438,15 @@ def run_topology(ctx):
     if cc.first:
         ctx.violation('loader-equivalence', f'topology ({flavour}): networks built from the legacy and from the '
                       f'round-tripped document differ: {cc.first}')
+    # the export does not carry every fibre parameter: compare the parameters of the built fibres as well
+    f1 = {n.uid: attr_dict(n.params.asdict()) for n in n1.nodes() if hasattr(n.params, 'asdict')}
+    f2 = {n.uid: attr_dict(n.params.asdict()) for n in n2.nodes() if hasattr(n.params, 'asdict')}
+    cf = Cmp(ctx, 'fibre parameters', rel=1e-5)
+    cf.walk(f1, f2, [])
+    ctx.count('fibre_parameter_sets_compared', len(f1))
+    if cf.first:
+        ctx.violation('loader-equivalence', f'topology ({flavour}): fibres built from the legacy and from the '
+                      f'round-tripped document differ: {cf.first}')
     optional = any(k in e.get('params', {}) for e in tj['elements']
                    for k in ('per_degree_pch_out_db', 'per_degree_psd_out_mWperGHz', 'design_bands', 'lumped_losses')) \
         or any(isinstance(e.get('params', {}).get('loss_coef'), dict) for e in tj['elements'])
@@ -435,9 +473,15 @@ def attr_dict(obj, depth=0):
     return obj
 
 
-def run_equipment(ctx):
+def classify_exception(e, tbs, ctx):
+    if 'Node "raman_coefficient" not found as a child of "RamanFiber"' in str(e):
+        return 'equipment-raman-efficiency-comes-back-as-raman-coefficient'
+    return None
+
+
+def run_equipment(ctx, raman=False):
     rng = ctx.rng
-    ej, name = gen_equipment_doc(rng)
+    ej, name = gen_equipment_doc(rng, raman=raman)
     ctx.dump.update({'document_name': name})
     rt = roundtrip(ctx, ej, 'equipment')
     if rt is None:
@@ -606,6 +650,9 @@ def run_alias(ctx):
 
 def run_case(case, ctx):
     k = case['kind']
+    if k == 'kf-raman-efficiency':
+        ctx.nontrivial(('kf-raman-efficiency', case['idx']))
+        return run_equipment(ctx, raman=True)
     {'topology': run_topology, 'equipment': run_equipment, 'services': run_services, 'spectrum': run_spectrum,
      'sim': run_sim, 'alias': run_alias}[k](ctx)
     if not ctx.violations:
